@@ -54,6 +54,11 @@ pub fn run_c05(cx: &Ctx) -> i32 {
     let alphabet = vec!['a', 'é', '€', '😀', '\n'];
     let max_len = if cx.quick() { 3 } else { 3 };
     let mut texts = space::texts(&alphabet, max_len);
+    for c in ['\u{e01}', '\u{d7ff}', '\u{fffd}', '\u{10ffff}'] {
+        texts.push(c.to_string());
+        texts.push(format!("a{}", c));
+        texts.push(format!("{}a", c));
+    }
     // a few long regular texts: many loop iterations (long undo logs, deep branch stacks)
     for n in [19usize, 24, 40] {
         texts.push("a".repeat(n));
